@@ -42,6 +42,7 @@ pub struct Profile {
     pub second_init: usize,    // % chance of an extra init among mid ops
     pub exotic_strings: usize, // % of histories with non-ASCII app id / version / channel
     pub real_tool: usize,      // % of histories whose patches come from the real `patch::make_patch`
+    pub conc: usize,           // % of mid ops that are concurrent episodes (update ∥ reports, queries, checks)
     pub min_ops: usize,
     pub max_ops: usize,
 }
@@ -60,6 +61,7 @@ pub fn profile(name: &str) -> Profile {
         second_init: 4,
         exotic_strings: 10,
         real_tool: 1,
+        conc: 0,
         min_ops: 12,
         max_ops: 40,
     };
@@ -75,6 +77,7 @@ pub fn profile(name: &str) -> Profile {
         "chaos" => Profile { name: "chaos", conformant: 0, damage: 15, second_init: 15, ..base },
         "init" => Profile { name: "init", second_init: 35, damage: 2, ..base },
         "strings" => Profile { name: "strings", exotic_strings: 100, damage: 0, ..base },
+        "conc" => Profile { name: "conc", conformant: 100, damage: 0, conc: 55, bad_download: 8, rollback: 30, net_fail: 3, release_change: 0, second_init: 0, min_ops: 8, max_ops: 24, ..base },
         _ => base,
     }
 }
@@ -500,7 +503,30 @@ pub fn gen_op(rng: &mut Rng, prof: &Profile, ctx: &Ctx, gs: &mut GenState, runne
     }
 }
 
+/// A concurrent episode: an update against 1–3 calls of another thread, with a random schedule.
+fn gen_conc(rng: &mut Rng, prof: &Profile, ctx: &Ctx) -> Op {
+    let upd = gen_update(rng, prof, ctx);
+    let n = 1 + rng.below(3);
+    let mut bops = Vec::new();
+    for _ in 0..n {
+        bops.push(match rng.below(100) {
+            0..=29 => Op::Failure,
+            30..=49 => Op::Success,
+            50..=59 => Op::NextN,
+            60..=69 => Op::NextP,
+            70..=74 => Op::CurN,
+            75..=89 => gen_check(rng, prof, ctx),
+            _ => Op::Start,
+        });
+    }
+    let sched: Vec<u8> = (0..16).map(|_| rng.below(2) as u8).collect();
+    Op::Conc { upd: Box::new(upd), bops, sched }
+}
+
 fn gen_mid(rng: &mut Rng, prof: &Profile, ctx: &Ctx, gs: &mut GenState, runner: &Runner) -> Op {
+    if rng.chance(prof.conc) {
+        return gen_conc(rng, prof, ctx);
+    }
     if rng.chance(prof.damage) {
         return gen_damage(rng, ctx, runner);
     }
